@@ -448,11 +448,17 @@ where
     fn call(&mut self, req: http::Request<BIn>) -> Self::Future {
         let (parts, body) = req.into_parts();
 
+        let Some(http_protocol) = HttpProtocol::for_version(parts.version) else {
+            return self::future::ResponseFuture::error(ConnectionError::Connecting(
+                ClientError::UnsupportedProtocol.into(),
+            ));
+        };
+
         let connector = Connector::new(
             self.transport.clone(),
             self.protocol.clone(),
             parts.clone(),
-            parts.version.into(),
+            http_protocol,
         );
 
         let req = http::Request::from_parts(parts, body);
@@ -531,8 +537,7 @@ mod future {
             }
         }
 
-        #[allow(dead_code)]
-        fn error(error: ConnectionError) -> Self {
+        pub(super) fn error(error: ConnectionError) -> Self {
             Self {
                 inner: ResponseFutureState::ConnectionError(Some(error)),
                 meta: ConnectorMeta::new(),
